@@ -718,7 +718,9 @@ def kernel_args(draw, name):
         return [Tf, draw(f(0, 1)) * Tf]
     if name == "JointTrajectory":
         n = draw(_N7)
-        return [draw(G.vec(n, -3, 3)), draw(G.vec(n, -3, 3)), draw(f(0.1, 10)), draw(st.integers(2, 12)),
+        return [draw(G.vec(n, -3, 3)), draw(G.vec(n, -3, 3)),
+                draw(st.one_of(f(0.1, 10), st.sampled_from([1.0, 2.0, 3.0, 4.0, 0.5, 10.0]))),
+                draw(st.integers(0, 11 * 10 ** 6 - 1).map(lambda k: k % 11 + 2)),       # 2..12 samples, see _N7
                 draw(st.sampled_from([3, 5]))]
     if name == "SPIKinSpace":
         bj, tj = draw(sp_geometry())
